@@ -117,6 +117,8 @@ func runC28(c *Ctx) {
 			bad := false
 			n := 0
 			for _, ev := range rr.Events {
+				// terms are compared modulo the equalities of this path class (results of helper calls)
+				e.T.Alias = e.T.AliasesOf(ev.Atoms)
 				for _, at := range ev.Atoms {
 					e.T.Match(pm, at, term.Env{}, func(en term.Env) bool {
 						n++
@@ -135,6 +137,7 @@ func runC28(c *Ctx) {
 						return true
 					})
 				}
+				e.T.Alias = nil
 				if ev.Kind == "call" && strings.HasPrefix(ev.Key, "builtin:delete") {
 					bad = true
 					c.bad("C28/signatures/attestor-set", fk, e.P.Pos(ev.Instr.Pos()), "an entry is deleted from a set during verification")
